@@ -123,7 +123,7 @@ func (fc *fnCtx) staticCall(cs *callSite, callee *ssa.Function, bindings []*val)
 	}
 	if callee.Blocks != nil && fc.depth < g.maxDepth && !fc.inChain(callee) && g.instrs < maxInstrs && (c == nil || !c.noinline) &&
 		(strings.HasPrefix(pkgPathOf(callee), modulePath) || g.w.inlineExternal[name]) {
-		if g.lite && !touchesLocks(callee, 5, map[*ssa.Function]bool{}) {
+		if g.lite && !touchesLocks(callee, 6, map[*ssa.Function]bool{}) {
 			return fc.havocCall(cs, false)
 		}
 		return fc.inline(cs, callee, bindings)
@@ -170,6 +170,7 @@ func (fc *fnCtx) havocCall(cs *callSite, writes bool) *val {
 			return &val{k: kTuple}
 		}
 		res = g.newVal(fc.pfx+cs.name, cs.typ)
+		fc.classAssume(res, cs.typ, fc.curR)
 		// results may be freshly allocated
 		if hasRefs(res) {
 			ac := g.declare(g.freshName("AC"), "Int")
@@ -543,6 +544,9 @@ func (fc *fnCtx) bytesEqual(a, b *val) *val {
 
 // lockOp: ghost counters per mutex location: slot off counts write locks, slot off+1 read locks.
 func (fc *fnCtx) lockOp(p *val, m string, cs *callSite) {
+	if len(cs.common.Args) > 0 && !lockWanted(cs.common.Args[0]) {
+		return
+	}
 	key := "mutex"
 	if len(cs.common.Args) > 0 {
 		key = fc.addrText(cs.common.Args[0])
@@ -562,6 +566,23 @@ func (fc *fnCtx) lockOp(p *val, m string, cs *callSite) {
 	}
 	cur := sel(fc.curH["GL"], p.t[0], off)
 	fc.curH["GL"] = fc.g.bind("GL", heapSort("Int"), sto(fc.curH["GL"], p.t[0], off, fmt.Sprintf("(+ %s %s)", cur, delta)))
+}
+
+var lockFilter []string // lite units: track only mutex fields with these names (empty = all)
+
+func lockWanted(arg ssa.Value) bool {
+	if len(lockFilter) == 0 {
+		return true
+	}
+	if fa, ok := arg.(*ssa.FieldAddr); ok {
+		st := fa.X.Type().Underlying().(*types.Pointer).Elem().Underlying().(*types.Struct)
+		for _, f := range lockFilter {
+			if st.Field(fa.Field).Name() == f {
+				return true
+			}
+		}
+	}
+	return false
 }
 
 func touchesLocks(fn *ssa.Function, depth int, seen map[*ssa.Function]bool) bool {
@@ -589,7 +610,10 @@ func touchesLocks(fn *ssa.Function, depth int, seen map[*ssa.Function]bool) bool
 			if callee, ok := cc.Value.(*ssa.Function); ok {
 				n := callee.String()
 				if strings.HasPrefix(n, "(*sync.Mutex).") || strings.HasPrefix(n, "(*sync.RWMutex).") {
-					return true
+					if len(cc.Args) > 0 && lockWanted(cc.Args[0]) {
+						return true
+					}
+					continue
 				}
 				if callee.Blocks != nil && touchesLocks(callee, depth-1, seen) {
 					return true
@@ -722,6 +746,9 @@ func (fc *fnCtx) applyContract(cs *callSite, callee *ssa.Function, c *contract) 
 			g.oblige(obligation{name: fmt.Sprintf("pre:%s:%s@%s", key, lbl, fc.oblFn()), kind: "pre", guard: fc.curR, cond: f, pos: g.w.posString(cs.pos)})
 		}
 	}
+	if c.assumedFrame {
+		g.trusted["assumed frame (callee-internal state only): "+key] = true
+	}
 	oldH := fc.curH.clone()
 	oldAC := fc.curAC
 	// frame
@@ -766,6 +793,7 @@ func (fc *fnCtx) applyContract(cs *callSite, callee *ssa.Function, c *contract) 
 			res = fc.pureCall(callee, cs.args, oldH, fc.curR)
 		} else {
 			res = g.newVal(fc.pfx+cs.name, cs.typ)
+			fc.classAssume(res, cs.typ, fc.curR)
 		}
 		if hasRefs(res) {
 			ac := g.declare(g.freshName("AC"), "Int")
@@ -797,7 +825,14 @@ func (fc *fnCtx) invoke(cs *callSite) *val {
 	g := fc.g
 	recv := cs.fnv
 	m := cs.common.Method
-	fc.oblige("nil", "invoke:"+fc.srcOr(cs.pos, "call", cs.common.Value.Name()+"."+m.Name()), fmt.Sprintf("(not (= %s 0))", recv.t[0]), cs.pos)
+	trustedIface := false
+	if n, ok := cs.common.Value.Type().(*types.Named); ok && n.Obj().Pkg() != nil {
+		p := n.Obj().Pkg().Path()
+		trustedIface = strings.HasPrefix(p, "github.com/prometheus") || strings.HasSuffix(p, "/pkg/logger")
+	}
+	if !trustedIface {
+		fc.oblige("nil", "invoke:"+fc.srcOr(cs.pos, "call", cs.common.Value.Name()+"."+m.Name()), fmt.Sprintf("(not (= %s 0))", recv.t[0]), cs.pos)
+	}
 	var c *contract
 	var ikey string
 	if n, ok := cs.common.Value.Type().(*types.Named); ok && n.Obj().Pkg() != nil {
@@ -808,10 +843,20 @@ func (fc *fnCtx) invoke(cs *callSite) *val {
 		if cs.common.Value.Type().String() == "error" && m.Name() == "Error" {
 			return fc.havocCall(cs, false)
 		}
+		if n, ok := cs.common.Value.Type().(*types.Named); ok && n.Obj().Pkg() != nil {
+			p := n.Obj().Pkg().Path()
+			if strings.HasPrefix(p, "github.com/prometheus") || strings.HasSuffix(p, "/pkg/logger") {
+				g.trusted["metrics and logging interface calls neither panic nor write program state: "+p] = true
+				return fc.havocCall(cs, false)
+			}
+		}
 		g.unmodelled["invoke:"+cs.common.Value.Type().String()+"."+m.Name()]++
 		return fc.havocCall(cs, true)
 	}
 	g.assumedCon["iface "+ikey] = true
+	if c.assumedFrame {
+		g.trusted["assumed frame (callee-internal state only): iface "+ikey] = true
+	}
 	sig := m.Type().(*types.Signature)
 	env := map[string]*val{}
 	for i := 0; i < sig.Params().Len() && i < len(cs.args); i++ {
@@ -860,6 +905,7 @@ func (fc *fnCtx) invoke(cs *callSite) *val {
 		fc.havocHeap("call", "", true)
 	}
 	res := g.newVal(fc.pfx+cs.name, cs.typ)
+	fc.classAssume(res, cs.typ, fc.curR)
 	if hasRefs(res) {
 		ac := g.declare(g.freshName("AC"), "Int")
 		g.assume(fmt.Sprintf("(>= %s %s)", ac, fc.curAC))
@@ -918,6 +964,12 @@ func ufArgs(g *gen, args []*val, h heap) ([]string, []string, bool) {
 			} else {
 				return nil, nil, false
 			}
+		case kOpaque:
+			if a.rowSort == "" {
+				return nil, nil, false
+			}
+			sorts = append(sorts, a.rowSort)
+			terms = append(terms, a.t[0])
 		case kStruct, kTuple:
 			s2, t2, ok := ufArgs(g, a.elems, h)
 			if !ok {
@@ -950,12 +1002,54 @@ func resultSort(t types.Type) (string, vkind, int, bool) {
 
 func (fc *fnCtx) pureCall(fn *ssa.Function, args []*val, h heap, guard string) *val {
 	g := fc.g
-	for i := range args {
-		if i < len(fn.Params) && args[i].ty == nil {
-			a := *args[i]
-			a.ty = fn.Params[i].Type()
-			args[i] = &a
+	{
+		// parameter types (external functions have no ssa Params: use the signature)
+		var ptys []types.Type
+		if fn.Signature.Recv() != nil {
+			ptys = append(ptys, fn.Signature.Recv().Type())
 		}
+		for i := 0; i < fn.Signature.Params().Len(); i++ {
+			ptys = append(ptys, fn.Signature.Params().At(i).Type())
+		}
+		for i := range args {
+			if i < len(ptys) && args[i].ty == nil {
+				a := *args[i]
+				a.ty = ptys[i]
+				args[i] = &a
+			}
+		}
+	}
+	// `reads p`: the function depends on the pointee object of p only: abstract p by that object's rows
+	if c := g.w.contractOf(fn); c != nil && len(c.reads) > 0 && !g.lite {
+		var names []string
+		if fn.Signature.Recv() != nil {
+			names = append(names, fn.Signature.Recv().Name())
+		}
+		for i := 0; i < fn.Signature.Params().Len(); i++ {
+			names = append(names, fn.Signature.Params().At(i).Name())
+		}
+		g.trusted["assumed read frame of pure function "+fnKeyQ(fn)+": "+strings.Join(c.reads, ", ")] = true
+		na := make([]*val, len(args))
+		copy(na, args)
+		for i, a := range na {
+			if i >= len(names) || a.k != kPtr {
+				continue
+			}
+			for _, rn := range c.reads {
+				if rn == names[i] {
+					ov := &val{k: kStruct, ty: nil}
+					for _, hk := range g.heapKinds() {
+						if hk.name == "GL" {
+							continue
+						}
+						ov.elems = append(ov.elems, &val{k: kOpaque, t: []string{fmt.Sprintf("(select %s %s)", h[hk.name], a.t[0])}, ty: nil, w: -1, rowSort: rowSort(hk.sort)})
+					}
+					ov.elems = append(ov.elems, &val{k: kInt, w: 64, t: []string{a.t[1]}})
+					na[i] = ov
+				}
+			}
+		}
+		args = na
 	}
 	sorts, terms, ok := ufArgs(g, args, h)
 	res := fn.Signature.Results()
@@ -1018,7 +1112,7 @@ func (fc *fnCtx) pureCall(fn *ssa.Function, args []*val, h heap, guard string) *
 		out = &val{k: kTuple, elems: outs}
 	}
 	// one-step unfolding of spec functions at this term
-	if strings.HasPrefix(fn.Name(), "spec_") && fn.Blocks != nil && !g.specStack[fn] && len(g.specStack) < 3 && !g.lite {
+	if strings.HasPrefix(fn.Name(), "spec_") && fn.Blocks != nil && !g.specStack[fn] && len(g.specStack) < 3 && !g.lite && guard != "#skip" {
 		key := base + "(" + strings.Join(terms, " ") + ")"
 		if !g.specDefs[key] {
 			g.specDefs[key] = true
